@@ -9,7 +9,7 @@ from ..monitors import EscapeMonitor, DeliveryMonitor, WireMonitor
 from ..evidence import graph_evidence
 
 PROP = 'C01'
-DEVS = ('recv=one', 'send=one', 'send=allbut1', 'send=eagain')
+DEVS = ('recv=one', 'recv=eagain', 'send=one', 'send=allbut1', 'send=eagain')
 
 
 def build(params):
